@@ -4,10 +4,14 @@ import TR.Lemmas.Retry
 
 Quantification of every theorem below: every configuration `cfg` — `max_attempts` fixed or per
 request (any value, 0 included), **every** predicate `pred : Nat → Bool` over error kinds,
-**every** back-off function `backoff : Nat → Nat` (retry number ↦ configured delay in **microseconds**;
-the instants of the model — `now`, `start`, `due`, `seen` — are whole milliseconds, as in the
+**every** back-off policy — `backoff : Nat → Nat` (retry number ↦ the least delay the interval function may answer,
+in **microseconds**) and `spread : Nat → Nat` (width of its envelope: 0 for the exact policies, for which `backoff`
+is *the* configured delay; positive for jittered / float-computed interval functions, whose every answer inside
+`[backoff k, backoff k + spread k]` is covered: the answers arrive with the `poll` operations, any values at all) —
+(the instants of the model — `now`, `start`, `due`, `seen` — are whole milliseconds, as in the
 compared event log), **every** budget (arbitrary `withdraw` /
-`deposit` functions, hence every sequence of grant answers; `none` = no budget) — and every list
+`deposit` functions, hence every sequence of grant answers; `none` = no budget), **every** script `rdy` of answers of
+the inner service to the readiness polls the loop makes before a retry — and every list
 of operations `ops`: any number of requests with any finite outcome scripts (latency, ok / error
 kind / panic / never), polled, dropped and interleaved in any order, with time advancing by any
 amounts, and other holders of the shared budget depositing and withdrawing in between.
@@ -53,17 +57,21 @@ theorem at_least_one (cfg : Cfg) (ops : List Op) (c : Nat) (cl : Caller)
   rw [h2] at hr
   have hres : cl.result ≠ none := by intro e; simp [e] at hr
   have hph := hc.phase
-  simp only [PhaseInv, hc.resultDone hres] at hph
-  obtain ⟨a, tl, t, ha, _⟩ := hph
-  simp [h1, serials, ha]
+  rcases hc.resultDone hres with hd | hd
+  · simp only [PhaseInv, hd] at hph
+    obtain ⟨a, tl, t, ha, _⟩ := hph
+    simp [h1, serials, ha]
+  · simp only [PhaseInv, hd] at hph
+    obtain ⟨a, tl, t, ha, _⟩ := hph
+    simp [h1, serials, ha]
 
 /-- … and the first call is made by the very first poll of the request (so every polled request
 calls the inner service at least once, whatever `max_attempts` is — also for 0). -/
-theorem first_poll_calls_inner (cfg : Cfg) (ops : List Op) (c : Nat) (cl : Caller)
+theorem first_poll_calls_inner (cfg : Cfg) (ops : List Op) (c : Nat) (cl : Caller) (ds : List Nat)
     (h : lookup (run cfg ops).callers c = some cl) (hp : cl.phase = .fresh) :
-    ∃ rest, (stepS cfg (run cfg ops) (.poll c)).log
+    ∃ rest, (stepS cfg (run cfg ops) (.poll c ds)).log
       = (run cfg ops).log ++ Ev.innerCall c (run cfg ops).serial :: rest :=
-  poll_fresh_calls h hp
+  poll_fresh_calls ds h hp
 
 /-- **At most `max(1, max_attempts)`.** In every reachable state the number of `inner_call`
 events of a request is at most `max 1 max_attempts` (its own `max_attempts`). -/
@@ -98,41 +106,51 @@ theorem stops_at_first_success_or_refused (cfg : Cfg) (ops : List Op) (c : Nat) 
 
 /-- … and it stops only for a reason: a request that has a result stopped on a success, a panic,
 or an error which the predicate refuses, or with its attempts exhausted
-(`attempt + 1 ≥ max_attempts`), or because the budget answered `false`. -/
+(`attempt + 1 ≥ max_attempts`), or because the budget answered `false` — or, after a retryable error and the whole
+back-off, because the inner service answered the readiness poll before the retry with an error (that error is the
+result; only possible when the script of readiness answers contains an error). -/
 theorem stops_only_for_a_reason (cfg : Cfg) (ops : List Op) (c : Nat) (cl : Caller)
     (h : lookup (run cfg ops).callers c = some cl) (hr : cl.result ≠ none) :
     ∃ a tl, cl.atts = a :: tl ∧
-      (a.out = .ok ∨ a.out = .panic ∨ ∃ kd, a.out = .err kd ∧
+      ((cl.phase = .done ∧ (a.out = .ok ∨ a.out = .panic ∨ ∃ kd, a.out = .err kd ∧
         (cfg.pred kd = false ∨ cl.maxA ≤ tl.length + 1 ∨
-          (cfg.budget ≠ none ∧ cl.grants.head? = some false))) := by
+          (cfg.budget ≠ none ∧ cl.grants.head? = some false)))) ∨
+       (cl.phase = .unready ∧ cl.result = some readyErr ∧ (∃ kd, a.out = .err kd ∧ cfg.pred kd = true) ∧
+          tl.length + 2 ≤ cl.maxA)) := by
   have hc : CInv cfg cl := (sinv_reachable cfg ops).all _ (mem_of_lookup h)
   have hph := hc.phase
-  simp only [PhaseInv, hc.resultDone hr] at hph
-  obtain ⟨a, tl, t, ha, _, _, _, hwhy, _⟩ := hph
-  have hh := hc.hist
-  rw [ha] at hh
-  have hidx : a.idx = tl.length := hh.1
-  refine ⟨a, tl, ha, ?_⟩
-  unfold StopReason at hwhy
-  rw [hidx] at hwhy
-  exact hwhy
+  rcases hc.resultDone hr with hd | hd
+  · simp only [PhaseInv, hd] at hph
+    obtain ⟨a, tl, t, ha, _, _, _, hwhy, _⟩ := hph
+    have hh := hc.hist
+    rw [ha] at hh
+    have hidx : a.idx = tl.length := hh.1
+    refine ⟨a, tl, ha, Or.inl ⟨hd, ?_⟩⟩
+    unfold StopReason at hwhy
+    rw [hidx] at hwhy
+    exact hwhy
+  · simp only [PhaseInv, hd] at hph
+    obtain ⟨a, tl, t, ha, _, hres, hret, _, hroom⟩ := hph
+    exact ⟨a, tl, ha, Or.inr ⟨hd, hres, hret, hroom⟩⟩
 
 /-- A finished request never acts again: polling it changes neither the log nor the budget. -/
-theorem finished_is_final (cfg : Cfg) (ops : List Op) (c : Nat) (cl : Caller)
+theorem finished_is_final (cfg : Cfg) (ops : List Op) (c : Nat) (cl : Caller) (ds : List Nat)
     (h : lookup (run cfg ops).callers c = some cl) (hr : cl.result ≠ none) :
-    (stepS cfg (run cfg ops) (.poll c)).log = (run cfg ops).log ∧
-    (stepS cfg (run cfg ops) (.poll c)).b = (run cfg ops).b := by
+    (stepS cfg (run cfg ops) (.poll c ds)).log = (run cfg ops).log ∧
+    (stepS cfg (run cfg ops) (.poll c ds)).b = (run cfg ops).b := by
   have hc : CInv cfg cl := (sinv_reachable cfg ops).all _ (mem_of_lookup h)
-  have := poll_done_inert (cfg := cfg) h (hc.resultDone hr)
+  have := poll_done_inert (cfg := cfg) ds h (hc.resultDone hr)
   exact ⟨this.1, this.2.1⟩
 
 /-- **Returns the last outcome.** The result handed to the caller is the outcome of the newest
 attempt `a`: `ok:k` / `err:inner<kind>:k` / panic for its outcome, with `k` the serial of the
 **last** `inner_call` of the request in the log; and that outcome is step number
-`(number of earlier attempts)` of the request's script (`ok` when the script is exhausted). -/
+`(number of earlier attempts)` of the request's script (`ok` when the script is exhausted) — unless the last thing
+the request observed of the inner service was a failed readiness poll before a retry (`cl.phase = .unready`, see
+`readiness_error_is_the_last_outcome`). -/
 theorem returns_last_outcome (cfg : Cfg) (ops : List Op) (c : Nat) (cl : Caller)
     (h : lookup (run cfg ops).callers c = some cl) (r : Res)
-    (hr : r ∈ resultsOf c (run cfg ops).log) :
+    (hr : r ∈ resultsOf c (run cfg ops).log) (hnu : cl.phase ≠ .unready) :
     ∃ a tl, cl.atts = a :: tl ∧ r = resOf a.k a.out ∧ a.out ≠ .never ∧
       (callsOf c (run cfg ops).log).getLast? = some a.k ∧
       a.out = (cl.plan0.getD tl.length { lat := 0, out := .ok }).out := by
@@ -144,7 +162,11 @@ theorem returns_last_outcome (cfg : Cfg) (ops : List Op) (c : Nat) (cl : Caller)
     | none => simp [hx] at hr
     | some r' => simp [hx] at hr; simp [hr]
   have hph := hc.phase
-  simp only [PhaseInv, hc.resultDone (by simp [hres])] at hph
+  have hd : cl.phase = .done := by
+    rcases hc.resultDone (by simp [hres]) with e | e
+    · exact e
+    · exact absurd e hnu
+  simp only [PhaseInv, hd] at hph
   obtain ⟨a, tl, t, ha, _, hres', hnn, _, _⟩ := hph
   have hh := hc.hist
   rw [ha] at hh
@@ -153,6 +175,33 @@ theorem returns_last_outcome (cfg : Cfg) (ops : List Op) (c : Nat) (cl : Caller)
   · simp [h1, serials, ha]
   · have := hh.2.1; rw [hh.1] at this; exact this
 
+/-- **… also when that outcome is a readiness error.** A request in phase `unready` has exactly the result
+`err:inner9:0` (the error of the failed readiness poll); its newest attempt failed with an error the predicate accepts and
+was observed, attempts were left (`attempts + 1 < max_attempts`), the back-off after it was slept, and no further inner
+call was made: the readiness error is the last thing the request observed of the inner service. -/
+theorem readiness_error_is_the_last_outcome (cfg : Cfg) (ops : List Op) (c : Nat) (cl : Caller)
+    (h : lookup (run cfg ops).callers c = some cl) (hu : cl.phase = .unready) :
+    resultsOf c (run cfg ops).log = [readyErr] ∧
+    ∃ a tl t, cl.atts = a :: tl ∧ a.seen = some t ∧ (∃ kd, a.out = .err kd ∧ cfg.pred kd = true) ∧
+      tl.length + 2 ≤ cl.maxA ∧ cl.sleeps.length = tl.length + 1 ∧
+      (callsOf c (run cfg ops).log).length = tl.length + 1 := by
+  obtain ⟨h1, h2⟩ := log_matches_history cfg ops c cl h
+  have hc : CInv cfg cl := (sinv_reachable cfg ops).all _ (mem_of_lookup h)
+  have hph := hc.phase
+  simp only [PhaseInv, hu] at hph
+  obtain ⟨a, tl, t, ha, hs, hres, hret, hsl, hroom⟩ := hph
+  refine ⟨by rw [h2, hres]; rfl, a, tl, t, ha, hs, hret, hroom, hsl, ?_⟩
+  simp [h1, serials, ha]
+
+/-- … and that can happen only if the inner service errs: when the script of its answers to the readiness polls
+contains no error (in particular for an inner service that is always ready, the empty script) no request of any
+reachable state is ever ended by a readiness error — every result is then the outcome of the request's last attempt
+(`returns_last_outcome` applies to every request). -/
+theorem ready_service_never_unready (cfg : Cfg) (hr : 'e' ∉ cfg.rdy) (ops : List Op) (c : Nat) (cl : Caller)
+    (h : lookup (run cfg ops).callers c = some cl) : cl.phase ≠ .unready := by
+  intro hu
+  exact hr ((rinv_reachable cfg ops).2 _ (mem_of_lookup h) hu)
+
 /-- At most one result per request, and it is the recorded one. -/
 theorem one_result (cfg : Cfg) (ops : List Op) (c : Nat) (cl : Caller)
     (h : lookup (run cfg ops).callers c = some cl) :
@@ -160,16 +209,84 @@ theorem one_result (cfg : Cfg) (ops : List Op) (c : Nat) (cl : Caller)
   obtain ⟨_, h2⟩ := log_matches_history cfg ops c cl h
   rw [h2]; cases cl.result <;> simp
 
-/-- **The sleep before retry k is exactly `backoff (k−1)`.** The delays (µs) handed to `sleep` by a
-request are, in order, `backoff 0, backoff 1, …` (newest first: `boList`), one per retry made
-(plus one while the request is sleeping). -/
+/-- **The sleep before retry k is the configured back-off for k.** The delays (µs) handed to `sleep` by a
+request are, in order, what the interval function answered for retry 0, 1, … — each inside the policy's envelope
+`[backoff k, backoff k + spread k]` whatever was observed (`SleepsOK`, newest first) —, one per retry made (plus one
+while the request is sleeping); for an exact policy (`spread = 0`: fixed, exponential ×2, custom table) they are
+exactly `backoff 0, backoff 1, …` (`boList`). -/
 theorem sleeps_are_backoff (cfg : Cfg) (ops : List Op) (c : Nat) (cl : Caller)
     (h : lookup (run cfg ops).callers c = some cl) :
-    cl.sleeps = boList cfg.backoff cl.sleeps.length ∧
+    SleepsOK cfg cl.sleeps ∧
+    ((∀ k, cfg.spread k = 0) → cl.sleeps = boList cfg.backoff cl.sleeps.length) ∧
     retries cl ≤ cl.sleeps.length ∧ cl.sleeps.length ≤ retries cl + 1 := by
   have hc : CInv cfg cl := (sinv_reachable cfg ops).all _ (mem_of_lookup h)
   have := hc.sleepsLen
-  refine ⟨hc.sleeps, ?_, ?_⟩ <;> simp only [retries_eq] <;> omega
+  refine ⟨hc.sleeps, fun hx => sleepsOK_exact hx hc.sleeps, ?_, ?_⟩ <;> simp only [retries_eq] <;> omega
+
+/-- **Jitter stays within the randomization factor; an allowed answer is slept as it is.** Whatever the interval
+function answers (`ch`, ns) for retry `k`, the delay handed to `sleep` lies in `[backoff k, backoff k + spread k]`; an
+answer inside the envelope is slept unchanged (rounded up to the model's µs, which never shortens it: `ns ≤ d·1000`);
+an exact policy sleeps `backoff k` whatever is observed. In particular an interval function saturated at
+`Duration::MAX` (`backoff k = durMaxUs`) is never slept as zero. -/
+theorem slept_delay_in_envelope (cfg : Cfg) (k : Nat) (ch : Option Nat) :
+    cfg.backoff k ≤ pick cfg k ch ∧ pick cfg k ch ≤ cfg.backoff k + cfg.spread k ∧
+    (∀ ns, ch = some ns → okChoice cfg k ch = true → pick cfg k ch = ceilUs ns ∧ ns ≤ pick cfg k ch * 1000) ∧
+    (cfg.spread k = 0 → pick cfg k ch = cfg.backoff k) := by
+  refine ⟨(pick_bounds cfg k ch).1, (pick_bounds cfg k ch).2, ?_, pick_exact cfg k ch⟩
+  intro ns hns hok
+  subst hns
+  have := pick_of_ok cfg k ns hok
+  exact ⟨this, by rw [this]; exact (le_ceilUs ns).1⟩
+
+/-- **The envelope of the interval-function objects** (`ExponentialBackoff` with any multiplier / maximum: `pct = none`;
+`ExponentialRandomBackoff` with randomization factor `pct` %: the jittered delay lies in `[d·(1−f), d·(1+f)]`, capped at
+`Duration::MAX`, `d` the capped exponential): with `x = min ⌊initial·(p/q)^k⌋ cap` the exact value for retry `k`, the least
+allowed answer is at most `x` and within the float tolerance (2^-40 relative + 1 ns, + 1 ns for the jitter's own
+rounding) of `x` resp. `x·(100−pct)/100`; the largest is at most `Duration::MAX`, at most the maximum for the un-jittered
+object, and within the tolerance of `x·(100+pct)/100`; the envelope is not empty, and in the model's unit it is
+`[lo k, lo k + sp k]` with `lo k + sp k` = the largest allowed answer. So with factor 0 the jittered delay is `x` up to
+the tolerance — in particular ≥ `x − x/2^40 − 2` ns, never zero for a saturated `x`. -/
+theorem interval_function_envelope (i : Ivl) (k : Nat) (hcap : i.capNs ≤ durMaxNs) :
+    i.ideal k ≤ i.capNs ∧ i.loNs k ≤ i.ideal k ∧ i.loNs k ≤ i.hiNs k ∧ i.hiNs k ≤ durMaxNs ∧
+    i.lo k + i.sp k = ceilUs (i.hiNs k) ∧
+    (i.pct = none → i.hiNs k ≤ i.capNs ∧ i.ideal k ≤ i.loNs k + tolNs (i.ideal k) ∧ i.hiNs k ≤ i.ideal k + tolNs (i.ideal k)) ∧
+    (∀ pct, i.pct = some pct →
+      i.ideal k * (100 - min pct 100) / 100 ≤ i.loNs k + tolNs (i.ideal k) + 1 ∧
+      i.hiNs k ≤ i.ideal k * (100 + min pct 100) / 100 + tolNs (2 * i.ideal k) + 1 ∧
+      (pct = 0 → i.ideal k ≤ i.loNs k + tolNs (i.ideal k) + 1)) := by
+  have hx : i.ideal k ≤ i.capNs := by unfold Ivl.ideal idealNs; exact Nat.min_le_right _ _
+  have key : i.loNs k ≤ i.ideal k ∧ i.loNs k ≤ i.hiNs k ∧ i.hiNs k ≤ durMaxNs ∧
+      (i.pct = none → i.hiNs k ≤ i.capNs ∧ i.ideal k ≤ i.loNs k + tolNs (i.ideal k) ∧ i.hiNs k ≤ i.ideal k + tolNs (i.ideal k)) ∧
+      (∀ pct, i.pct = some pct →
+        i.ideal k * (100 - min pct 100) / 100 ≤ i.loNs k + tolNs (i.ideal k) + 1 ∧
+        i.hiNs k ≤ i.ideal k * (100 + min pct 100) / 100 + tolNs (2 * i.ideal k) + 1 ∧
+        (pct = 0 → i.ideal k ≤ i.loNs k + tolNs (i.ideal k) + 1)) := by
+    cases hp : i.pct with
+    | none =>
+      simp only [Ivl.loNs, Ivl.hiNs, hp]
+      refine ⟨by omega, by omega, by omega, fun _ => ⟨by omega, by omega, by omega⟩, by intro pct h; cases h⟩
+    | some pct =>
+      have h1 : i.ideal k * (100 - min pct 100) / 100 ≤ i.ideal k :=
+        Nat.div_le_of_le_mul (by rw [Nat.mul_comm]; exact Nat.mul_le_mul_right _ (by omega))
+      have h2 : i.ideal k ≤ i.ideal k * (100 + min pct 100) / 100 :=
+        (Nat.le_div_iff_mul_le (by decide)).mpr (Nat.mul_le_mul_left _ (by omega))
+      simp only [Ivl.loNs, Ivl.hiNs, hp]
+      refine ⟨?_, ?_, ?_, ?_, ?_⟩
+      · omega
+      · omega
+      · omega
+      · intro h; cases h
+      · intro pct' h
+        cases h
+        refine ⟨by omega, by omega, ?_⟩
+        intro h0
+        subst h0
+        have : i.ideal k * (100 - min 0 100) / 100 = i.ideal k := by simp
+        omega
+  refine ⟨hx, key.1, key.2.1, key.2.2.1, ?_, key.2.2.2.1, key.2.2.2.2⟩
+  have := ceilUs_mono key.2.1
+  simp only [Ivl.lo, Ivl.sp]
+  omega
 
 /-- … and it is honoured, **in microseconds**: for any two consecutive attempts `q` (number `k−1`)
 and `p` (number `k`) of a request, `q`'s failure was observed at some instant `t` (ms), no earlier
@@ -177,83 +294,121 @@ than the inner future was ready, and `p` started no earlier than the configured 
 `t·1000 + backoff (k−1) ≤ start·1000` with `backoff` in µs — whatever fraction of a millisecond the
 configured delay has, for every back-off function (zero and `Duration::MAX`-like values included).
 More precisely the timer's rounding is *up*: the retry starts no earlier than
-`t + ⌈backoff (k−1) / 1000⌉` ms. -/
+`t + ⌈backoff (k−1) / 1000⌉` ms. For an interval function with an envelope (jitter: `backoff` is the least value it may
+answer) the same holds for the delay `p.wait` it actually answered, which lies in the envelope. -/
 theorem waits_at_least_backoff (cfg : Cfg) (ops : List Op) (c : Nat) (cl : Caller)
     (h : lookup (run cfg ops).callers c = some cl)
     (pre rest : List Att) (p q : Att) (hpq : cl.atts = pre ++ p :: q :: rest) :
     q.idx = rest.length ∧ p.idx = q.idx + 1 ∧
     ∃ t, q.seen = some t ∧ q.due ≤ t ∧ t * 1000 + cfg.backoff q.idx ≤ p.start * 1000 ∧
-      t + ceilMs (cfg.backoff q.idx) ≤ p.start := by
+      t + ceilMs (cfg.backoff q.idx) ≤ p.start ∧
+      -- … and, for a policy with an envelope (jitter), the very delay the interval function answered (`p.wait`)
+      cfg.backoff q.idx ≤ p.wait ∧ p.wait ≤ cfg.backoff q.idx + cfg.spread q.idx ∧
+      t * 1000 + p.wait ≤ p.start * 1000 ∧ t + ceilMs p.wait ≤ p.start := by
   have hc : CInv cfg cl := (sinv_reachable cfg ops).all _ (mem_of_lookup h)
-  obtain ⟨_, h2, t, h3, h4, h5⟩ := hist_adjacent pre hc.hist hpq
+  obtain ⟨_, h2, hlo, hhi, t, h3, h4, h5⟩ := hist_adjacent pre hc.hist hpq
   have := hist_member (pre ++ [p]) hc.hist (a := q) (rest := rest) (by simp [hpq])
-  have hle := le_ceilMs (cfg.backoff q.idx)
-  exact ⟨this.1, h2, t, h3, h4, by omega, h5⟩
+  have hle := le_ceilMs p.wait
+  have hmono := ceilMs_mono hlo
+  exact ⟨this.1, h2, t, h3, h4, by omega, by omega, hlo, hhi, by omega, h5⟩
 
 /-- **The timer rounds up, never down, and by less than a millisecond.** While a request is in its
 back-off (`sleeping u`), the wake-up instant `u` (ms) is the *first* millisecond boundary at or after
-"failure observed at `t`" + configured back-off (µs): `t·1000 + backoff ≤ u·1000 < t·1000 + backoff + 1000`.
+"failure observed at `t`" + the delay `d` (µs) the interval function answered — `d` inside the envelope of the retry
+number, `d = backoff` for an exact policy —: `t·1000 + d ≤ u·1000 < t·1000 + d + 1000`.
 In particular a back-off of `0 < d < 1000` µs waits a full millisecond (never zero), a whole number
 of milliseconds is waited exactly, and a zero back-off does not wait (`u = t`). -/
 theorem backoff_deadline_rounds_up (cfg : Cfg) (ops : List Op) (c u : Nat) (cl : Caller)
     (h : lookup (run cfg ops).callers c = some cl) (hp : cl.phase = .sleeping u) :
-    ∃ a tl t, cl.atts = a :: tl ∧ a.seen = some t ∧
-      t * 1000 + cfg.backoff tl.length ≤ u * 1000 ∧ u * 1000 < t * 1000 + cfg.backoff tl.length + 1000 ∧
-      (cfg.backoff tl.length = 0 → u = t) ∧
-      (∀ ms, cfg.backoff tl.length = ms * 1000 → u = t + ms) ∧
-      (0 < cfg.backoff tl.length → t < u) := by
+    ∃ a tl t d, cl.atts = a :: tl ∧ a.seen = some t ∧ cl.sleeps.head? = some d ∧
+      cfg.backoff tl.length ≤ d ∧ d ≤ cfg.backoff tl.length + cfg.spread tl.length ∧
+      (cfg.spread tl.length = 0 → d = cfg.backoff tl.length) ∧
+      t * 1000 + d ≤ u * 1000 ∧ u * 1000 < t * 1000 + d + 1000 ∧
+      (d = 0 → u = t) ∧
+      (∀ ms, d = ms * 1000 → u = t + ms) ∧
+      (0 < d → t < u) := by
   have hc : CInv cfg cl := (sinv_reachable cfg ops).all _ (mem_of_lookup h)
   have hph := hc.phase
   simp only [PhaseInv, hp] at hph
-  obtain ⟨a, tl, t, ha, hs, hu', _⟩ := hph
-  have hh := hc.hist
-  rw [ha] at hh
-  rw [hh.1] at hu'
-  obtain ⟨e1, e2, e3⟩ := ceil_window t u (cfg.backoff tl.length) hu'
-  refine ⟨a, tl, t, ha, hs, e1, e2, ?_, ?_, e3⟩
+  obtain ⟨a, tl, t, d, ds, ha, hs, hsd, hu', _, hsl, _⟩ := hph
+  have hso := hc.sleeps
+  rw [hsd] at hso
+  simp only [SleepsOK, hsl] at hso
+  obtain ⟨e1, e2, e3⟩ := ceil_window t u d hu'
+  refine ⟨a, tl, t, d, ha, hs, by simp [hsd], hso.1, hso.2.1, by intro h0; omega, e1, e2, ?_, ?_, e3⟩
   · intro h0; rw [hu', h0, ceilMs_zero]; rfl
   · intro ms hms; rw [hu', hms, ceilMs_whole]
 
 /-- Before the end of the back-off a poll of the request does nothing (no inner call, no budget
-operation) … -/
-theorem no_retry_before_backoff (cfg : Cfg) (ops : List Op) (c u : Nat) (cl : Caller)
+operation) — nor while the service instance the request holds answers "pending" to the readiness poll (still
+recovering from the attempt that failed): readiness can only delay a retry further … -/
+theorem no_retry_before_backoff (cfg : Cfg) (ops : List Op) (c u : Nat) (cl : Caller) (ds : List Nat)
     (h : lookup (run cfg ops).callers c = some cl) (hp : cl.phase = .sleeping u)
-    (hu : (run cfg ops).now < u) :
-    (stepS cfg (run cfg ops) (.poll c)).log = (run cfg ops).log ∧
-    (stepS cfg (run cfg ops) (.poll c)).b = (run cfg ops).b := by
-  have := poll_sleeping_waits (cfg := cfg) h hp hu
+    (hu : (run cfg ops).now < u ∨ recovered cfg cl.atts (run cfg ops).now = false) :
+    (stepS cfg (run cfg ops) (.poll c ds)).log = (run cfg ops).log ∧
+    (stepS cfg (run cfg ops) (.poll c ds)).b = (run cfg ops).b := by
+  have := poll_sleeping_waits (cfg := cfg) ds h hp hu
   exact ⟨this.1, this.2.1⟩
 
-/-- … and a poll at or after it starts the retry in that step: polled on time, the gap is
-exactly `⌈backoff (k−1) / 1000⌉` ms (`u` is `t + ⌈backoff (k−1) / 1000⌉` for the newest attempt,
-observed at `t`: the first millisecond boundary at or after the configured deadline). -/
-theorem retry_starts_when_polled (cfg : Cfg) (ops : List Op) (c u : Nat) (cl : Caller)
+/-- … and a poll at or after it, once the service instance has recovered (`recov = 0`: at once), starts the retry in that
+step, provided the inner service answers the readiness poll
+with "ready" (always, for the empty script): polled on time, the gap is exactly `⌈d / 1000⌉` ms (`u` is `t + ⌈d / 1000⌉`
+for the newest attempt, observed at `t`, `d` the delay answered by the interval function — `backoff (k−1)` for an exact
+policy —: the first millisecond boundary at or after the configured deadline). If the readiness poll fails instead, the
+request ends in that step with that error and nothing else happens. -/
+theorem retry_starts_when_polled (cfg : Cfg) (ops : List Op) (c u : Nat) (cl : Caller) (ds : List Nat)
     (h : lookup (run cfg ops).callers c = some cl) (hp : cl.phase = .sleeping u)
-    (hu : u ≤ (run cfg ops).now) :
-    (∃ a tl t, cl.atts = a :: tl ∧ a.seen = some t ∧ u = t + ceilMs (cfg.backoff tl.length)) ∧
-    ∃ rest, (stepS cfg (run cfg ops) (.poll c)).log
-      = (run cfg ops).log ++ Ev.innerCall c (run cfg ops).serial :: rest := by
+    (hu : u ≤ (run cfg ops).now) (hrec : recovered cfg cl.atts (run cfg ops).now = true) :
+    (∃ a tl t d, cl.atts = a :: tl ∧ a.seen = some t ∧ cl.sleeps.head? = some d ∧ u = t + ceilMs d ∧
+      (cfg.spread tl.length = 0 → u = t + ceilMs (cfg.backoff tl.length))) ∧
+    ((readyOf (run cfg ops).rdy).1 = true →
+      ∃ rest, (stepS cfg (run cfg ops) (.poll c ds)).log
+        = (run cfg ops).log ++ Ev.innerCall c (run cfg ops).serial :: rest) ∧
+    ((readyOf (run cfg ops).rdy).1 = false →
+      (stepS cfg (run cfg ops) (.poll c ds)).log = (run cfg ops).log ++ [Ev.result c readyErr] ∧
+      (stepS cfg (run cfg ops) (.poll c ds)).b = (run cfg ops).b) := by
   have hc : CInv cfg cl := (sinv_reachable cfg ops).all _ (mem_of_lookup h)
   have hph := hc.phase
   simp only [PhaseInv, hp] at hph
-  obtain ⟨a, tl, t, ha, hs, hu', _⟩ := hph
+  obtain ⟨a, tl, t, d, ds', ha, hs, hsd, hu', _, hsl, _⟩ := hph
+  have hso := hc.sleeps
+  rw [hsd] at hso
+  simp only [SleepsOK, hsl] at hso
+  refine ⟨⟨a, tl, t, d, ha, hs, by simp [hsd], hu', ?_⟩, fun hr => poll_sleeping_calls ds h hp hu hrec hr, fun hr => ?_⟩
+  · intro h0
+    have : d = cfg.backoff tl.length := by omega
+    rw [hu', this]
+  · have := poll_sleeping_unready (cfg := cfg) ds h hp hu hrec hr
+    exact ⟨this.1, this.2.1⟩
+
+/-- An inner service whose instances need no recovery time (`recov = 0`, the default) has always recovered by the end
+of the back-off: the retry then starts at the first poll at or after the back-off deadline. -/
+theorem recovered_of_no_recovery_time (cfg : Cfg) (hz : cfg.recov = 0) (ops : List Op) (c u : Nat) (cl : Caller)
+    (h : lookup (run cfg ops).callers c = some cl) (hp : cl.phase = .sleeping u) (hu : u ≤ (run cfg ops).now) :
+    recovered cfg cl.atts (run cfg ops).now = true := by
+  have hc : CInv cfg cl := (sinv_reachable cfg ops).all _ (mem_of_lookup h)
+  have hph := hc.phase
+  simp only [PhaseInv, hp] at hph
+  obtain ⟨a, tl, t, d, ds', ha, hs, hsd, hu', _, hsl, _⟩ := hph
   have hh := hc.hist
   rw [ha] at hh
-  refine ⟨⟨a, tl, t, ha, hs, ?_⟩, poll_sleeping_calls h hp hu⟩
-  rw [hu', hh.1]
+  have h3 := hh.2.2.1
+  have h4 := hh.2.2.2.1 t hs
+  simp only [recovered, ha, hz]
+  simp; omega
 
 /-- **No grant, no retry.** With a budget configured, every sleep (hence every retry) of a request
 was preceded by its own `true` answer of `try_withdraw`: the number of `true` answers it consumed
 equals the number of sleeps it entered, so `retries ≤ grants ≤ retries + 1` (the `+1` only while
-sleeping or when dropped while sleeping); every answer but the newest is `true`, and a `false`
-answer ends the request. -/
+sleeping, when dropped while sleeping, or when the readiness poll after the sleep failed); every answer but the newest
+is `true`, and a `false` answer ends the request. -/
 theorem no_grant_no_retry (cfg : Cfg) (ops : List Op) (c : Nat) (cl : Caller)
     (h : lookup (run cfg ops).callers c = some cl) (hb : cfg.budget ≠ none) :
     ctTrue cl.grants = cl.sleeps.length ∧
     retries cl ≤ ctTrue cl.grants ∧ ctTrue cl.grants ≤ retries cl + 1 ∧
     (∀ g ∈ cl.grants.tail, g = true) ∧
     (cl.grants.head? = some false → cl.result ≠ none) ∧
-    (cl.result ≠ none → retries cl = ctTrue cl.grants) := by
+    (cl.phase = .done → retries cl = ctTrue cl.grants) := by
   have hc : CInv cfg cl := (sinv_reachable cfg ops).all _ (mem_of_lookup h)
   have hcount := hc.grantsCount hb
   have hlen := hc.sleepsLen
@@ -270,9 +425,9 @@ theorem no_grant_no_retry (cfg : Cfg) (ops : List Op) (c : Nat) (cl : Caller)
     simp only [PhaseInv, hdone] at hph
     obtain ⟨a, tl, t, _, _, hres, _⟩ := hph
     simp [hres]
-  · intro hr
+  · intro hd
     have hph := hc.phase
-    simp only [PhaseInv, hc.resultDone hr] at hph
+    simp only [PhaseInv, hd] at hph
     obtain ⟨a, tl, t, ha, _, _, _, _, hsl⟩ := hph
     simp only [retries_eq, ha, hcount, hsl]; simp
 
@@ -325,21 +480,60 @@ theorem shared_budget_bound_aimd (cfg : Cfg) (minB maxB dep wd q : Nat)
 
 /-- The model's poll is faithful to "one poll runs the loop until it has to wait": the outcome of
 an inner call that is ready is observed by the poll in that step (first new event `inner_done`) … -/
-theorem ready_outcome_is_observed (cfg : Cfg) (ops : List Op) (c k due : Nat) (o : Out) (cl : Caller)
+theorem ready_outcome_is_observed (cfg : Cfg) (ops : List Op) (c k due : Nat) (o : Out) (cl : Caller) (ds : List Nat)
     (h : lookup (run cfg ops).callers c = some cl) (hp : cl.phase = .calling k due o)
     (hd : due ≤ (run cfg ops).now) (hn : o ≠ .never) :
-    ∃ rest, (stepS cfg (run cfg ops) (.poll c)).log = (run cfg ops).log ++ Ev.innerDone c k o :: rest :=
-  poll_calling_observes h hp hd hn
+    ∃ rest, (stepS cfg (run cfg ops) (.poll c ds)).log = (run cfg ops).log ++ Ev.innerDone c k o :: rest :=
+  poll_calling_observes ds h hp hd hn
 
 /-- … and after any poll the request is finished or genuinely waiting (for its inner call or for
 the end of its back-off): no further loop iteration is possible, i.e. the fuel bounding the
 model's loop never cuts a poll short. -/
-theorem poll_runs_until_blocked (cfg : Cfg) (ops : List Op) (c : Nat) (cl : Caller)
+theorem poll_runs_until_blocked (cfg : Cfg) (ops : List Op) (c : Nat) (cl : Caller) (ds : List Nat)
     (h : lookup (run cfg ops).callers c = some cl) :
-    ∃ cl', lookup (stepS cfg (run cfg ops) (.poll c)).callers c = some cl' ∧
-      tickC cfg (stepS cfg (run cfg ops) (.poll c)).now (stepS cfg (run cfg ops) (.poll c)).serial
-        (stepS cfg (run cfg ops) (.poll c)).b c cl' = none :=
-  TR.Retry.poll_runs_until_blocked (sinv_reachable cfg ops) h
+    ∃ cl', lookup (stepS cfg (run cfg ops) (.poll c ds)).callers c = some cl' ∧
+      tickC cfg (stepS cfg (run cfg ops) (.poll c ds)).now (stepS cfg (run cfg ops) (.poll c ds)).serial
+        (stepS cfg (run cfg ops) (.poll c ds)).b c cl' = none :=
+  TR.Retry.poll_runs_until_blocked ds (sinv_reachable cfg ops) h
+
+/-! ## several services, handles and clones of one layer
+
+`RetryLayer::layer` hands every service the same `Arc<RetryConfig>` — policy, `max_attempts` source, budget — and nothing
+else: a `Retry` service holds no state of its own, the attempt counter lives in the call future. So the model has one
+record per *request* and one budget per *layer*, whichever service / handle / clone the request was made through; what is
+per request is untouched by the steps of other requests, what is shared is only the budget (`shared_budget_bound`) and
+the inner service's readiness script. -/
+
+/-- **Per-request state is not shared.** A poll of request `c` (through whichever service of the layer) changes the
+record of no other request `c'`: its attempt counter, attempt history, sleeps, grants, result and `max_attempts` are
+exactly what they were — in particular the attempts of one request never count against another's `max_attempts`. -/
+theorem poll_leaves_other_requests_alone (cfg : Cfg) (s : State) (c c' : Nat) (ds : List Nat) (hne : c' ≠ c) :
+    lookup (stepS cfg s (.poll c ds)).callers c' = lookup s.callers c' := by
+  simp only [stepS, pollS]
+  split
+  · rfl
+  · exact lookup_modify_ne hne
+
+/-- … nor does dropping one request's call future or the arrival of another request. -/
+theorem drop_and_arrival_leave_other_requests_alone (cfg : Cfg) (s : State) (c c' : Nat) (hne : c' ≠ c)
+    (ma : Option Nat) (plan : List Step) :
+    lookup (stepS cfg s (.drop c)).callers c' = lookup s.callers c' ∧
+    lookup (stepS cfg s (.arrive c ma plan)).callers c' = lookup s.callers c' := by
+  constructor
+  · simp only [stepS, dropS]
+    split
+    · rfl
+    · split
+      · rfl
+      · rfl
+      · rfl
+      · simp only [emit]; exact lookup_modify_ne hne
+      · exact lookup_modify_ne hne
+  · simp only [stepS, arriveS]
+    split
+    · rfl
+    · have : ¬ c = c' := fun e => hne e.symm
+      simp [lookup, this]
 
 /-! ## the builder: the layer that a chain of setters builds
 
@@ -365,15 +559,25 @@ theorem builder_max_attempts_last_wins (pre post : List Setter) (n : Nat) (hpost
   · intro chain h
     exact foldl_max_keep chain defaultCfg h
 
-/-- The back-off function is the one given last (by any of the three back-off setters), wherever the other setters
-stand; without one it is the default: exponential from 100 ms. -/
+/-- The back-off function is the one given last (by any of the three back-off setters — `.backoff(i)` with an exact
+function, or with an interval-function object that has an envelope: its envelope), wherever the other setters
+stand; without one it is the default: exponential from 100 ms, exact. -/
 theorem builder_backoff_last_wins (pre post : List Setter) (f : Nat → Nat) (hpost : ∀ s ∈ post, s.slot ≠ 1) :
-    (build (pre ++ .backoff f :: post)).backoff = f ∧
-    (∀ chain : List Setter, (∀ s ∈ chain, s.slot ≠ 1) → ∀ k, (build chain).backoff k = 100000 * 2 ^ k) := by
-  constructor
+    ((build (pre ++ .backoff f :: post)).backoff = f ∧ ∀ k, (build (pre ++ .backoff f :: post)).spread k = 0) ∧
+    (∀ lo sp, (build (pre ++ .interval lo sp :: post)).backoff = lo ∧ (build (pre ++ .interval lo sp :: post)).spread = sp) ∧
+    (∀ chain : List Setter, (∀ s ∈ chain, s.slot ≠ 1) →
+      ∀ k, (build chain).backoff k = 100000 * 2 ^ k ∧ (build chain).spread k = 0) := by
+  refine ⟨⟨?_, ?_⟩, ?_, ?_⟩
   · rw [build_append_cons, foldl_backoff_keep _ _ hpost]; rfl
+  · intro k; rw [build_append_cons, foldl_spread_keep _ _ hpost]; rfl
+  · intro lo sp
+    constructor
+    · rw [build_append_cons, foldl_backoff_keep _ _ hpost]; rfl
+    · rw [build_append_cons, foldl_spread_keep _ _ hpost]; rfl
   · intro chain h k
-    rw [build, foldl_backoff_keep chain defaultCfg h]; rfl
+    constructor
+    · rw [build, foldl_backoff_keep chain defaultCfg h]; rfl
+    · rw [build, foldl_spread_keep chain defaultCfg h]; rfl
 
 /-- The predicate is the one given last; without one every error is retried. -/
 theorem builder_predicate_last_wins (pre post : List Setter) (p : Nat → Bool) (hpost : ∀ s ∈ post, s.slot ≠ 2) :
@@ -398,31 +602,36 @@ theorem builder_budget_last_wins (pre post : List Setter) (bu : Budget) (b0 : BS
 
 /-- **At most `max(1, n)` invocations for the layer built with `max_attempts(n)` last** — for every chain in which
 `max_attempts(n)` is the last setter of the limit (any `max_attempts_fn` extractors before it, any other setters after
-it), every operation sequence and every request, whatever value the request itself carries. -/
+it), every readiness behaviour `r` of the inner service, every operation sequence and every request, whatever value the
+request itself carries. -/
 theorem chain_fixed_at_most_max (pre post : List Setter) (n : Nat) (hpost : ∀ s ∈ post, s.slot ≠ 0)
-    (ops : List Op) (c : Nat) :
-    (callsOf c (run (build (pre ++ .maxA n :: post)) ops).log).length ≤ max 1 n := by
+    (r : List Char) (ops : List Op) (c : Nat) :
+    (callsOf c (run { build (pre ++ .maxA n :: post) with rdy := r } ops).log).length ≤ max 1 n := by
   obtain ⟨⟨hm, hd⟩, _⟩ := builder_max_attempts_last_wins pre post n hpost
-  cases h : lookup (run (build (pre ++ .maxA n :: post)) ops).callers c with
+  have hm' : ({ build (pre ++ .maxA n :: post) with rdy := r } : Cfg).max = n := hm
+  have hd' : ({ build (pre ++ .maxA n :: post) with rdy := r } : Cfg).dyn = false := hd
+  cases h : lookup (run { build (pre ++ .maxA n :: post) with rdy := r } ops).callers c with
   | none => simp [no_calls_without_request _ ops c h]
   | some cl =>
     obtain ⟨ma, hma⟩ := maxA_origin _ ops c cl h
     have := at_most_max _ ops c cl h
-    rw [hma, hd, hm] at this
+    rw [hma, hd', hm'] at this
     simpa using this
 
 /-- … and for the layer built with `max_attempts_fn(f)` last (any fixed limits before it): a request that arrives
 carrying `ma` (none: the extractor's default `d`) is invoked at most `max(1, ma)` times, at least once when it has a
 result. -/
 theorem chain_per_request_at_most_max (pre post : List Setter) (d : Nat) (hpost : ∀ s ∈ post, s.slot ≠ 0)
-    (before after : List Op) (c : Nat) (ma : Option Nat) (plan : List Step)
-    (hnew : lookup (run (build (pre ++ .maxFn d :: post)) before).callers c = none) :
-    (callsOf c (run (build (pre ++ .maxFn d :: post)) (before ++ .arrive c ma plan :: after)).log).length
+    (r : List Char) (before after : List Op) (c : Nat) (ma : Option Nat) (plan : List Step)
+    (hnew : lookup (run { build (pre ++ .maxFn d :: post) with rdy := r } before).callers c = none) :
+    (callsOf c (run { build (pre ++ .maxFn d :: post) with rdy := r } (before ++ .arrive c ma plan :: after)).log).length
       ≤ max 1 (ma.getD d) := by
   obtain ⟨_, ⟨hm, hd⟩, _⟩ := builder_max_attempts_last_wins pre post d hpost
+  have hm' : ({ build (pre ++ .maxFn d :: post) with rdy := r } : Cfg).max = d := hm
+  have hd' : ({ build (pre ++ .maxFn d :: post) with rdy := r } : Cfg).dyn = true := hd
   obtain ⟨cl, hl, hma, _⟩ := max_attempts_fixed_at_arrival _ before after c ma plan hnew
   have := at_most_max _ _ c cl hl
-  rw [hma, hd, hm] at this
+  rw [hma, hd', hm'] at this
   simpa using this
 
 /-! ## non-vacuity: concrete runs -/
@@ -438,9 +647,9 @@ error; request 1's second failure finds the bucket empty and returns the last er
 request 3 succeeds at once, deposits, and request 4 can retry again and stops at the refused err2. -/
 example :
     (run cfgEx [.arrive 1 none [⟨0, .err 1⟩, ⟨0, .err 1⟩, ⟨0, .ok⟩], .arrive 2 none [⟨0, .err 1⟩, ⟨0, .ok⟩],
-       .poll 1, .poll 2, .adv 4, .poll 1, .adv 1, .poll 1,
-       .arrive 3 none [⟨0, .ok⟩], .poll 3,
-       .arrive 4 none [⟨2, .err 1⟩, ⟨0, .err 2⟩, ⟨0, .ok⟩], .poll 4, .adv 2, .poll 4, .adv 5, .poll 4]).log
+       .poll 1 [], .poll 2 [], .adv 4, .poll 1 [], .adv 1, .poll 1 [],
+       .arrive 3 none [⟨0, .ok⟩], .poll 3 [],
+       .arrive 4 none [⟨2, .err 1⟩, ⟨0, .err 2⟩, ⟨0, .ok⟩], .poll 4 [], .adv 2, .poll 4 [], .adv 5, .poll 4 []]).log
     = [.innerCall 1 0, .innerDone 1 0 (.err 1),
        .innerCall 2 1, .innerDone 2 1 (.err 1), .result 2 (.inner 1 1),
        .innerCall 1 2, .innerDone 1 2 (.err 1), .result 1 (.inner 1 2),
@@ -452,15 +661,15 @@ example :
 per-request `max_attempts` of 2 stops after two calls although the script would go on. -/
 example :
     (run { max := 0, dyn := true, backoff := fun _ => 0 }
-      [.arrive 1 none [⟨0, .err 1⟩, ⟨0, .ok⟩], .poll 1,
-       .arrive 2 (some 2) [⟨0, .err 1⟩, ⟨0, .err 3⟩, ⟨0, .ok⟩], .poll 2]).log
+      [.arrive 1 none [⟨0, .err 1⟩, ⟨0, .ok⟩], .poll 1 [],
+       .arrive 2 (some 2) [⟨0, .err 1⟩, ⟨0, .err 3⟩, ⟨0, .ok⟩], .poll 2 []]).log
     = [.innerCall 1 0, .innerDone 1 0 (.err 1), .result 1 (.inner 1 0),
        .innerCall 2 1, .innerDone 2 1 (.err 1), .innerCall 2 2, .innerDone 2 2 (.err 3),
        .result 2 (.inner 3 2)] := by decide
 
 /-- the hypotheses of the per-request theorems are met by a request in mid-flight (sleeping) -/
 example :
-    (lookup (run cfgEx [.arrive 7 none [⟨0, .err 1⟩, ⟨0, .err 1⟩], .poll 7]).callers 7).map
+    (lookup (run cfgEx [.arrive 7 none [⟨0, .err 1⟩, ⟨0, .err 1⟩], .poll 7 []]).callers 7).map
       (fun cl => (cl.phase, cl.sleeps, cl.grants, cl.atts.length))
     = some (.sleeping 5, [5000], [true], 1) := by decide
 
@@ -469,17 +678,70 @@ the 900 µs back-off is waited (no retry in the first poll, none possible before
 after 1.5 ms starts at 1 + 2 = 3 ms (a poll at 2 ms does nothing), the one after 2.001 ms at 3 + 3 = 6 ms. -/
 example :
     ((run { max := 4, backoff := fun k => [900, 1500, 2001].getD k 0 }
-      [.arrive 1 none [⟨0, .err 1⟩, ⟨0, .err 1⟩, ⟨0, .err 1⟩, ⟨0, .ok⟩], .poll 1, .adv 1, .poll 1,
-       .adv 1, .poll 1, .adv 1, .poll 1, .adv 2, .poll 1, .adv 1, .poll 1]).callers.map
+      [.arrive 1 none [⟨0, .err 1⟩, ⟨0, .err 1⟩, ⟨0, .err 1⟩, ⟨0, .ok⟩], .poll 1 [], .adv 1, .poll 1 [],
+       .adv 1, .poll 1 [], .adv 1, .poll 1 [], .adv 2, .poll 1 [], .adv 1, .poll 1 []]).callers.map
         (fun p => ((p.2.atts.map (·.start)).reverse, p.2.sleeps.reverse, p.2.result)))
     = [([0, 1, 3, 6], [900, 1500, 2001], some (.ok 3))] := by decide
 
 /-- a `Duration::MAX` back-off never ends (here: not after 10^12 ms), a zero one does not wait -/
 example :
     ((run { max := 3, backoff := fun k => [0, durMaxUs].getD k 0 }
-      [.arrive 1 none [⟨0, .err 1⟩, ⟨0, .err 1⟩, ⟨0, .ok⟩], .poll 1, .adv 1000000000000, .poll 1]).callers.map
+      [.arrive 1 none [⟨0, .err 1⟩, ⟨0, .err 1⟩, ⟨0, .ok⟩], .poll 1 [], .adv 1000000000000, .poll 1 []]).callers.map
         (fun p => ((p.2.atts.map (·.start)).reverse, p.2.phase)))
     = [([0, 0], .sleeping (2 ^ 64 * 1000))] := by decide
+
+/-- a jittered policy (`ExponentialRandomBackoff`, 1 s ×2, factor 50 %, no maximum, as the line protocol builds it):
+the envelope for retry 0 is [0.5 s, 1.5 s] (± the float tolerance), for retry 1 [1 s, 3 s]; the observed answers
+(`poll … @d=<ns>`) 731 ms and 2.9 s are slept as they are — the retries start at 731 ms and 731 + 2900 ms, not before —,
+and nothing is flagged -/
+example :
+    let iv : Ivl := { init := 1000000000, pct := some 50 }
+    let cfg : Cfg := { max := 3, backoff := iv.lo, spread := iv.sp }
+    (iv.lo 0, iv.lo 0 + iv.sp 0, iv.lo 1, iv.lo 1 + iv.sp 1) = (500000, 1500001, 1000000, 3000001) ∧
+    ((run cfg [.arrive 1 none [⟨0, .err 1⟩, ⟨0, .err 1⟩, ⟨0, .ok⟩], .poll 1 [731000000], .adv 730, .poll 1 [],
+               .adv 1, .poll 1 [2900000000], .adv 2899, .poll 1 [], .adv 1, .poll 1 []]).callers.map
+        (fun p => ((p.2.atts.map (·.start)).reverse, p.2.sleeps.reverse, p.2.result)))
+      = [([0, 731, 3631], [731000, 2900000], some (.ok 2))] ∧
+    (run cfg [.arrive 1 none [⟨0, .err 1⟩, ⟨0, .ok⟩], .poll 1 [731000000]]).log
+      = [.innerCall 1 0, .innerDone 1 0 (.err 1)] := by decide
+
+/-- **a saturated jittered back-off is never "no back-off"**: `ExponentialRandomBackoff::new(Duration::MAX, 0.0)` has the
+envelope [`Duration::MAX` − tolerance, `Duration::MAX`]; an interval function answering 0 for it (the seeded change
+C05-w5m1) is flagged (`choice-not-allowed`), and the model does not retry: it sleeps (at least) the least allowed
+delay, more than 2^63 s; the answer `Duration::MAX` itself is accepted and slept -/
+example :
+    let iv : Ivl := { init := durMaxNs, pct := some 0 }
+    let cfg : Cfg := { max := 3, backoff := iv.lo, spread := iv.sp }
+    2 ^ 63 * 1000000 ≤ iv.lo 0 ∧ iv.lo 0 + iv.sp 0 = durMaxUs ∧
+    (run cfg [.arrive 1 none [⟨0, .err 1⟩, ⟨0, .ok⟩], .poll 1 [0], .adv 1000000000000, .poll 1 []]).log
+      = [.innerCall 1 0, .innerDone 1 0 (.err 1), .raw "choice-not-allowed"] ∧
+    (run cfg [.arrive 1 none [⟨0, .err 1⟩, ⟨0, .ok⟩], .poll 1 [durMaxNs], .adv 1000000000000, .poll 1 []]).log
+      = [.innerCall 1 0, .innerDone 1 0 (.err 1)] ∧
+    ((run cfg [.arrive 1 none [⟨0, .err 1⟩, ⟨0, .ok⟩], .poll 1 [durMaxNs]]).callers.map (·.2.sleeps)) = [[durMaxUs]] := by
+  decide
+
+/-- the inner service fails the readiness poll before the second retry (script "re"; 'p' = pending, polled again at
+once): request 1 makes two calls, sleeps its second back-off and ends with the readiness error — no third call, the
+budget token taken for that retry is not refunded; request 2, after it, finds the script exhausted (ready) -/
+example :
+    let cfg : Cfg := { max := 4, backoff := fun _ => 2000, budget := some (bucket 3), b0 := ⟨3, 3⟩, rdy := ['r', 'p', 'e'] }
+    let s := run cfg [.arrive 1 none [⟨0, .err 1⟩, ⟨0, .err 1⟩, ⟨0, .ok⟩], .poll 1 [], .adv 2, .poll 1 [], .adv 2, .poll 1 [],
+                      .arrive 2 none [⟨0, .err 1⟩, ⟨0, .ok⟩], .poll 2 [], .adv 2, .poll 2 []]
+    s.log = [.innerCall 1 0, .innerDone 1 0 (.err 1), .innerCall 1 1, .innerDone 1 1 (.err 1), .result 1 readyErr,
+             .innerCall 2 2, .innerDone 2 2 (.err 1), .innerCall 2 3, .innerDone 2 3 .ok, .result 2 (.ok 3)] ∧
+    s.b.tokens = 1 ∧ s.callers.map (fun p => (p.1, p.2.phase)) = [(2, .done), (1, .unready)] := by decide
+
+/-- readiness that pends delays the retry, never the other way round: the service instance needs 5 ms after each call
+(`recov := 5`), the back-off is 2 ms; attempt 0 starts at 0 and fails at 1, the back-off ends at 3 — a poll then does
+nothing —, the instance has recovered at 5: the retry starts at 5, not before; with a back-off longer than the recovery
+(10 ms) it is the back-off that decides -/
+example :
+    ((run { max := 3, backoff := fun _ => 2000, recov := 5 }
+        [.arrive 1 none [⟨1, .err 1⟩, ⟨0, .ok⟩], .poll 1 [], .adv 1, .poll 1 [], .adv 2, .poll 1 [], .adv 1, .poll 1 [],
+         .adv 1, .poll 1 []]).callers.map (fun p => ((p.2.atts.map (·.start)).reverse, p.2.result))) = [([0, 5], some (.ok 1))] ∧
+    ((run { max := 3, backoff := fun _ => 10000, recov := 5 }
+        [.arrive 1 none [⟨1, .err 1⟩, ⟨0, .ok⟩], .poll 1 [], .adv 1, .poll 1 [], .adv 9, .poll 1 [], .adv 1, .poll 1 []]
+      ).callers.map (fun p => ((p.2.atts.map (·.start)).reverse, p.2.result))) = [([0, 11], some (.ok 1))] := by decide
 
 /-- an arbitrary sequence of grant answers is a budget: here the answers `true, false` scripted
 through the token counter -/
@@ -487,7 +749,7 @@ example :
     (run { max := 5, backoff := fun _ => 0,
            budget := some { withdraw := fun b => ([true, false].getD b.tokens false, { b with tokens := b.tokens + 1 }),
                             deposit := fun b => b } }
-      [.arrive 1 none [⟨0, .err 1⟩, ⟨0, .err 1⟩, ⟨0, .err 1⟩], .poll 1]).log
+      [.arrive 1 none [⟨0, .err 1⟩, ⟨0, .err 1⟩, ⟨0, .err 1⟩], .poll 1 []]).log
     = [.innerCall 1 0, .innerDone 1 0 (.err 1), .innerCall 1 1, .innerDone 1 1 (.err 1),
        .result 1 (.inner 1 1)] := by decide
 
@@ -497,7 +759,7 @@ setter overrides; the back-off given last (zero) is the one slept; the empty cha
 example :
     let bo0 : Setter := .backoff fun _ => 0
     let script : List Step := [⟨0, .err 1⟩, ⟨0, .err 1⟩, ⟨0, .err 1⟩, ⟨0, .err 1⟩, ⟨0, .err 1⟩, ⟨0, .err 1⟩]
-    let ops := [Op.arrive 1 none script, .poll 1, .arrive 2 (some 4) script, .poll 2]
+    let ops := [Op.arrive 1 none script, .poll 1 [], .arrive 2 (some 4) script, .poll 2 []]
     let calls := fun (chain : List Setter) => (1, 2) |> fun (a, b) =>
       ((callsOf a (run (build chain) ops).log).length, (callsOf b (run (build chain) ops).log).length)
     calls [.maxFn 5, .backoff (fun _ => 7000), bo0, .maxA 2] = (2, 2) ∧
